@@ -170,9 +170,6 @@ func (o *offsetDB) parseStreams(content string, streams streamsOffsets) (string,
 			return "", fmt.Errorf("wrong offsets format, no separator %q", line)
 		}
 		stream := pipeline.StreamName(line[4:pos])
-		if len(stream) == 0 {
-			return "", fmt.Errorf("wrong offsets format, empty stream, %s", content)
-		}
 
 		_, has := streams[stream]
 		if has {
